@@ -514,52 +514,115 @@ def report_bad(run, events, meta, bad):
                        "src": src, "vars": vars_, "rkind": kind})
 
 
-def validate_parallel(run, events, meta, nchunks):
-    size = (len(events) + nchunks - 1) // nchunks
-    pieces = [(i, events[i:i + size]) for i in range(0, len(events), size)]
-    with ThreadPoolExecutor(max_workers=len(pieces)) as ex:
-        outs = list(ex.map(lambda p: tlc_validate(p[1], f"Str_Trace validation of recorded calls (chunk at {p[0]})"),
-                           pieces))
-    bad = []
-    for (off, _), (res, b) in zip(pieces, outs):
-        run.add_tlc(res, res.label)
-        bad += [(off + k, why) for k, why in b]
-    report_bad(run, events, meta, bad)
-    return len(bad)
+# ------------------------------------------------------- worker processes
+class _Collector:
+    """Stands in for Run inside a worker: violations travel back as data."""
+
+    def __init__(self):
+        self.found = []
+
+    def violation(self, key, what, case):
+        self.found.append((key, what, case))
+
+
+def _w_replay(job):
+    """Replay case records (all records of one s are in the same job)."""
+    recs, maxs = job
+    col = _Collector()
+    ck = Checker(col)
+    for rec in recs:
+        check_case(ck, rec, maxs)
+    return col.found, ck.ses.n, len(ck.seen)
+
+
+def _w_record(job):
+    seed, n = job
+    return record_events(random.Random(seed), n)
+
+
+CHUNK = 4500          # events per recording job and per TLC validation run
+NPROC = 8
 
 
 def run(run):
+    import multiprocessing
     quick = run.tier == "quick"
-    rng = random.Random(run.seed)
     cfgs = [("Str_quick", 3)] if quick else [("Str_quick", 3), ("Str_thorough", 3), ("Str_wide", 2)]
-    ck = Checker(run)
-    ncase = 0
-    seen = set()
-    for cfg, maxs in cfgs:
-        res = run_tlc("Str", cfg, coverage=True, timeout=3000)
-        run.add_tlc(res, f"Str driver machine and laws ({cfg})")
-        for rec in res.records("CASE"):
-            key = (tuple(rec["s"]), tuple(rec["t"]), tuple(rec["r"]), maxs)
-            if key in seen:
-                continue
-            seen.add(key)
-            if ncase in (7, 3000, 20000):
-                run.sample({"CASE": {k: rec[k] for k in ("s", "t", "r", "fi", "co", "sp", "rp", "tr")}})
-            check_case(ck, rec, maxs)
-            ncase += 1
-    if ncase == 0:
-        raise MachineryError("TLC exported no cases")
-    nev = 36000 if quick else 600000
-    events, meta, nb = record_events(rng, nev)
-    validate_parallel(run, events, meta, 8 if quick else 16)
+    nev = 36000 if quick else 594000
+    # the pool is forked before any thread exists
+    pool = multiprocessing.get_context("fork").Pool(NPROC)
+    tlc_model = ThreadPoolExecutor(max_workers=1)        # the model runs, one after the other
+    tlc_trace = ThreadPoolExecutor(max_workers=NPROC)    # trace validations
+    try:
+        model_futs = [tlc_model.submit(run_tlc, "Str", cfg, coverage=True, timeout=3000,
+                                       label=f"Str driver machine and laws ({cfg})")
+                      for cfg, _ in cfgs]
+        # binding B, recording: independent chunks, each with its own seeded generator
+        jobs = [(run.seed * 1000003 + i, min(CHUNK, nev - off))
+                for i, off in enumerate(range(0, nev, CHUNK))]
+        chunks = []
+        val_futs = []
+        for i, out in enumerate(pool.imap(_w_record, jobs)):
+            chunks.append(out)
+            val_futs.append(tlc_trace.submit(
+                tlc_validate, out[0], f"Str_Trace validation of recorded calls (chunk {i})"))
+        # binding A: replay the case records of each model run
+        ncase = nkeys = neval_a = 0
+        seen = set()
+        for (cfg, maxs), fut in zip(cfgs, model_futs):
+            res = fut.result()
+            run.add_tlc(res, res.label)
+            recs = []
+            for rec in res.records("CASE"):
+                key = (tuple(rec["s"]), tuple(rec["t"]), tuple(rec["r"]), maxs)
+                if key in seen:
+                    continue
+                seen.add(key)
+                recs.append(rec)
+            recs.sort(key=lambda q: (q["s"], q["t"], q["r"]))
+            for j in (7, 3000, 20000):
+                if j < len(recs) and cfg == cfgs[0][0]:
+                    run.sample({"CASE": {k: recs[j][k] for k in ("s", "t", "r", "fi", "co", "sp", "rp", "tr")}})
+            # cut into jobs at changes of s, so that per-s checks are done once
+            size = max(200, len(recs) // (NPROC * 4))
+            jobs_a, cur = [], []
+            for rec in recs:
+                if len(cur) >= size and rec["s"] != cur[-1]["s"]:
+                    jobs_a.append((cur, maxs))
+                    cur = []
+                cur.append(rec)
+            if cur:
+                jobs_a.append((cur, maxs))
+            for found, n, nk in pool.imap(_w_replay, jobs_a):
+                for key, what, case in found:
+                    run.violation(key, what, case)
+                neval_a += n
+                nkeys += nk
+            ncase += len(recs)
+        if ncase == 0:
+            raise MachineryError("TLC exported no cases")
+        # binding B, verdicts
+        events, meta, nb = [], [], 0
+        for (ev, me, n), fut in zip(chunks, val_futs):
+            res, bad = fut.result()
+            run.add_tlc(res, res.label)
+            report_bad(run, ev, me, bad)
+            events += ev
+            meta += me
+            nb += n
+    finally:
+        pool.terminate()
+        pool.join()
+        tlc_model.shutdown(wait=False, cancel_futures=True)
+        tlc_trace.shutdown(wait=False, cancel_futures=True)
     run.sample({"EVENTS": [events[i] for i in range(0, 40, 7)]})
     ops = {}
     for e in events:
         ops[e["op"]] = ops.get(e["op"], 0) + 1
     distinct = len({json.dumps(e, sort_keys=True) for e in events})
     run.cov["traces_validated_against_impl"] = ncase + nev
-    run.cov["evaluations"] = ck.ses.n + nb
-    run.cov["distinct_nontrivial"] = len(ck.seen) + distinct
+    run.cov["evaluations"] = neval_a + nb
+    run.cov["distinct_nontrivial"] = nkeys + distinct
     run.cov["rule"] = ("binding A: distinct (law, expression, arguments) triples replayed from the case records "
                        "of Str.tla (one record per (s, t, r)); binding B: distinct recorded events; "
                        "evaluations counts interpreter calls")
